@@ -129,8 +129,11 @@ class BIFReader(object):
         )
         # variable states is of the form type description [args] { val1, val2 }; (comma may or may not be present)
 
+        # `property` has to be a whole word; names like `property_x` must not match.
         property_expr = (
-            Suppress("property") + CharsNotIn(";") + Suppress(";")
+            Suppress(pp.Keyword("property", identChars=pp.unicode.alphanums + "_-."))
+            + CharsNotIn(";")
+            + Suppress(";")
         )  # Creating an expr to find property
 
         return name_expr, variable_state_expr, property_expr
@@ -165,13 +168,16 @@ class BIFReader(object):
         return probability_expr, cpd_expr
 
     def variable_block(self):
-        start = re.finditer("variable", self.network)
+        # Only match the keyword when it starts a block, i.e. `variable <name> {`,
+        # and not when it is part of a variable or state name.
+        start = re.finditer(r"(?<![^\s}])variable\s+[^\s{]+\s*\{", self.network)
         for index in start:
             end = self.network.find("}\n", index.start())
             yield self.network[index.start() : end]
 
     def probability_block(self):
-        start = re.finditer("probability", self.network)
+        # Only match the keyword when it starts a block, i.e. `probability (`.
+        start = re.finditer(r"(?<![^\s}])probability\s*\(", self.network)
         for index in start:
             end = self.network.find("}\n", index.start())
             yield self.network[index.start() : end]
@@ -283,7 +289,9 @@ class BIFReader(object):
     def _get_values_from_block(self, block):
         names = self.probability_expr.searchString(block)
         var_name, parents = names[0][0], names[0][1:]
-        cpds = self.cpd_expr.searchString(block)
+        # Search only the body of the block; variable names in the header could
+        # otherwise be mistaken for the `table` / `default` keywords.
+        cpds = self.cpd_expr.searchString(block.partition("{")[2])
 
         # Check if the block is a table.
         if bool(re.search(".*\n[ ]*(table|default) .*\n.*", block)):
